@@ -9,6 +9,7 @@ import (
 	"strconv"
 	"strings"
 	"sync"
+	"time"
 
 	"github.com/emersion/go-sasl"
 	smtp "github.com/emersion/go-smtp"
@@ -384,15 +385,24 @@ type lockOpts struct {
 	HandshakeFailed  bool
 	// Final is called at the end with the live connection and the backend.
 	Final func(l *h.Live, be *h.Backend, st ref.PState)
+	// Backend adjusts the recording backend before the server starts; Patience: see h.Live.Patience.
+	Backend  func(be *h.Backend)
+	Patience time.Duration
 }
 
 func runLockstepOpt(prefix string, pc ref.PConfig, alpha []ref.Cmd, hist []int, opts *lockOpts) *histResult {
 	res := &histResult{FailedAt: -1}
 	cfg, be := serverFor(pc)
+	if opts != nil && opts.Backend != nil {
+		opts.Backend(be)
+	}
 	defer h.GuardEnter(fmt.Sprintf("lock-step history, config %+v: [%s]", pc, histNames(alpha, hist)))()
 	var live *h.Live
 	leak, pan := h.Bubble(func() {
 		live = h.NewLive(cfg, be, pc.ImplicitTLS)
+		if opts != nil {
+			live.Patience = opts.Patience
+		}
 		st := ref.PState{TLS: pc.ImplicitTLS, Bin: "no"}
 		g := live.Greeting()
 		grs, err := ref.ParseReplies(g)
